@@ -9,7 +9,7 @@ from suite_q import Variant
 
 
 def q_suite(profile, n_quick, n_thorough, variants_quick, variants_thorough, rule="", nontrivial=None,
-            max_ops_quick=45, max_ops_thorough=120):
+            max_ops_quick=45, max_ops_thorough=120, classifier=None, use_corpus=True):
     def run(ctx, search=False):
         quick = ctx.quick()
         variants = variants_quick if quick else variants_thorough
@@ -25,12 +25,12 @@ def q_suite(profile, n_quick, n_thorough, variants_quick, variants_thorough, rul
         if rule:
             ctx.rule = (ctx.rule + " | " if ctx.rule else "") + rule
         rng = random.Random("%d/%s/%s" % (ctx.seed, ctx.prop, profile))
-        scripts = suiterun.load_corpus(ctx.prop, prefix="q_")
+        scripts = suiterun.load_corpus(ctx.prop, prefix="q_") if use_corpus else []
         for i in range(n):
             name = "%s_%s_%d_%d" % (ctx.prop, profile, ctx.seed, i)
             scripts.append((name, suite_q.gen_script(rng, name, profile, max_ops_quick if quick else max_ops_thorough)))
         suiterun.run_suite(ctx, "seq_q/" + profile, exes, scripts, suite_q.run_batch, suite_q.run_one, suite_q.judge,
-                           suite_q.classify, nontrivial, prep=suite_q.with_cfg)
+                           suite_q.classify, nontrivial, prep=suite_q.with_cfg, classifier=classifier)
     return run
 
 
@@ -100,7 +100,11 @@ register(
                          "(by-value prototype) and block by script; variants with a canContinueInvoking policy (parameters by value; per script `cfg cci M R`: "
                          "continue iff value % M != R, evaluated by the model on the possibly rewritten argument), with two mixins (a pass-through mixin listed before MixinFilter), "
                          "listeners registered through conditionalFunctor (run iff value % m == r) and argumentAdapter (own parameter type converted from the payload); distinct = distinct canonical output; non-trivial = >=2 filter calls and >=1 listener call",
-                    nontrivial=nt_filter)],
+                    nontrivial=nt_filter),
+            # known finding D12: a mixin without the hook, listed before MixinFilter
+            q_suite("filter", 25, 150, [V("single", 0, 0, 0, 0, mixins=3)], [V("single", 0, 0, 0, 0, mixins=3), V("multi", 1, 1, 0, 0, mixins=3)],
+                    classifier=lambda script, why: "mixins:hookless-mixin-before-filter-runs-filters-twice" if "ev call filter" in why.split("model=")[0] else None,
+                    use_corpus=True)],
 )
 
 register(
